@@ -135,6 +135,7 @@ let run_hist hfn zh (tys : string) (vals : string) (route : string) (ops : strin
     vm = v_init t v0;
     snaps = [] } in
   let ops = match parse_sexp ops with L l -> l | _ -> failwith "ops must be a list" in
+  let iters : (int * n ref * n) list ref = ref [] in
   let out = Buffer.create 256 in
   let add k v =
     if !no_spec && String.length k > 5 && String.sub k 0 5 = "spec_" then ()
@@ -178,6 +179,32 @@ let run_hist hfn zh (tys : string) (vals : string) (route : string) (ops : strin
       if show_mout rh <> show_mout rt then failwith ("HM and TM diverge at step " ^ string_of_int k);
       add key (show_mout rh); add ("spec_" ^ key) (show_vout rv) in
     (match e with
+     | L [A "iter"; A h] ->
+       (* Iter(): the element count is fixed when the iterator is made; Next() is Get(i), i++ *)
+       let hi = int_of_string h in
+       (match List.nth_opt m.tm.m_handles hi, List.nth_opt m.vm hi with
+        | Some td, Some vd ->
+          let len0 = match td.h_ty, vd.vh_val with
+            | TVector (e, n), _ when not (is_basic_elem e) -> Some n
+            | TList (e, _), VSeq vs when not (is_basic_elem e) -> Some (n_of_int (List.length vs))
+            | TContainer fs, _ -> Some (n_of_int (List.length fs))
+            | _ -> None in
+          (match len0 with
+           | Some l ->
+             iters := !iters @ [ (hi, ref N0, l) ];
+             let r = "OK_i" ^ string_of_int (List.length !iters - 1) in
+             add key r; add ("spec_" ^ key) r
+           | None -> add key "ERR"; add ("spec_" ^ key) "ERR")
+        | _ -> add key "ERR"; add ("spec_" ^ key) "ERR")
+     | L [A "next"; A k] ->
+       (match List.nth_opt !iters (int_of_string k) with
+        | None -> add key "ERR"; add ("spec_" ^ key) "ERR"
+        | Some (hi, idx, len0) ->
+          if N.ltb !idx len0 then begin
+            let i = !idx in
+            idx := N.succ i;
+            machine_op (OGet (nat_of_int hi, i))
+          end else (add key "END"; add ("spec_" ^ key) "END"))
      | L [A "get"; A h; A i] -> machine_op (OGet (nat_s h, nh i))
      | L [A "uvalue"; A h] -> machine_op (OUValue (nat_s h))
      | L [A "copy"; A h] -> machine_op (OCopy (nat_s h))
